@@ -518,9 +518,9 @@ TABLE = {
     "C14": ("translation_validation", c14),
     "C15": ("translation_validation", c15),
     "C16": ("translation_validation", c16),
-    "C01": ("translation_validation", c01),
+    "C01": ("proof", c01),
     "C02": ("translation_validation", c02),
-    "C03": ("translation_validation", c03),
+    "C03": ("proof", c03),
     "C23": ("translation_validation", c23),
     "C06": ("translation_validation", c06),
     "C07": ("proof", c07),
